@@ -34,6 +34,9 @@ func init() {
 		if len(a) >= 2 && a[0] == "hist" {
 			c01case(c, a[1:])
 		}
+		if len(a) >= 2 && a[0] == "hosts" {
+			c01hostsCase(c, a[1:])
+		}
 	}
 }
 
@@ -426,6 +429,9 @@ func c01optStats(c *ctx, toks []string) {
 
 // corpus of minimised past failures (each one is the replay of a repaired or known difference)
 var c01corpus = []string{
+	// an ssl-passthrough host re-parsed unchanged (endpoints event), then removed: HasSSLPassthrough() decides the
+	// frontend layout, the derived counter must follow the items (seed C01d; model: C01 hosts ...)
+	"svc+d/app!http:80:8080!- ep~d/app!10.0.1.1:r:app-1 ing+d/i1@1!haproxy,-!ssl-passthrough=true!a.local>/:Prefix:app:80!-!- ing+d/i2@2!haproxy,-!-!b.local>/:Prefix:app:80!-!- sync ep~d/app!10.0.1.1:r:app-1+10.0.1.2:r:app-2 sync ing-d/i1 sync",
 	// a certificate shared from another namespace (cross-namespace-secrets-crt: allow) is renewed: the link is
 	// kept under the secret's own namespace/name
 	"cm~cross-namespace-secrets-crt=allow svc+d/app!http:80:8080!- ep~d/app!10.0.1.1:r:app-1 sec+e/tls1!tls!1!a.local ing+d/i1@1!haproxy,-!-!a.local>/:Prefix:app:80!a.local>e/tls1!- sync sec~e/tls1!tls!2!a.local sync",
@@ -514,6 +520,7 @@ func runC01(c *ctx) {
 		c01exhaustive(c, 2)
 	}
 	r := gen.New(c.seed)
+	c01hostsRun(c, gen.New(c.seed^0x4057))
 	n := 450
 	if c.thorough() {
 		n = 4000
